@@ -34,6 +34,16 @@ if __name__ == '__main__':
     what = sys.argv[1] if len(sys.argv) > 1 else 'all'
     flt = sys.argv[2] if len(sys.argv) > 2 else ''
     os.makedirs('/tmp/scratch', exist_ok=True)
+    # variants live in scratch directories and the Go build cache keys packages by directory: run them on a private,
+    # hard-linked copy of the cache that is removed afterwards (otherwise every sweep leaves several GB behind)
+    src = subprocess.run(['go', 'env', 'GOCACHE'], capture_output=True, text=True).stdout.strip()
+    tmpc = tempfile.mkdtemp(prefix='rg_gocache_', dir='/tmp/scratch')
+    os.rmdir(tmpc)
+    if not src or subprocess.run(['cp', '-al', src, tmpc]).returncode != 0:
+        os.makedirs(tmpc, exist_ok=True)
+    ENV['GOCACHE'] = tmpc
+    import atexit
+    atexit.register(lambda: shutil.rmtree(tmpc, ignore_errors=True))
     jobs = []
     if what in ('seeds', 'all'):
         jobs += [('seed', n) for n in sorted(os.listdir(V + '/seeded')) if flt in n]
